@@ -29,19 +29,25 @@ PROPERTY = "C14"
 TRUSTED = [
     "translate/t_val.py (tokenizer + shape matcher over g++ -E output): trusted to report what the source "
     "says; it refuses any statement shape it does not understand; its --self-test mutates a scratch copy",
-    "hand-written walker Validate_Model.v over the generated tables (stichwort container, order of "
-    "embed()) tied by differential testing against the real tapkee::embed, not by a proof about C++",
+    "hand-written walker Validate_Model.v over the generated tables (order of embed(), conversions, guards) "
+    "tied by differential testing against the real tapkee::embed, not by a proof about C++; its container "
+    "functions and predicate objects are PROVED equal to the interpretation of the bodies the translator reads "
+    "from parameter.hpp / predicates.hpp (Validate_Proof_Bodies.v); the small statement language and its "
+    "interpreter (Validate_Model.run_cstmt, body_holds) are hand-written; std::map iteration order is "
+    "abstracted (no translated body depends on it); one policy object per C++ type is taken as type identity "
+    "(value_keeper.hpp / policy.hpp shapes are pinned by the translator)",
     "documented table Validate_Spec.v (cells, defaults, order of the tests) written by hand from the "
     "property statement and the doc comments",
     "bounds 3.0/N and (N-1)/3.0: exact rationals in the model; binary64 agreement proved by evaluation "
-    "with Coq primitive floats for N <= 4096 (within 2^-53 relative, equal when representable); values "
+    "with Coq primitive floats for N <= 65536 (within 2^-53 relative, equal when representable); values "
     "strictly between the exact bound and its rounding are exempt and never generated",
-    "int(N * landmark_ratio): exact in the model; generated ratios make the double product exact",
+    "int(N * landmark_ratio): exact in the model; generated ratios (multiples of 1/64) make the double product "
+    "exact; binary64 agreement evaluated for N <= 256 and every ratio k/256",
     "extraction (ExtrOcamlBasic only) + OCaml 4.13.1 + coq/extract/c14_driver.ml (parsing/printing)",
     "harness/c14.cpp: fork per request, counting callbacks that end the child at the first kernel/"
     "distance call, logger capturing the debug echo; quick tier builds it -O0 without sanitizers",
     "Coq primitive floats / Uint63 (stdlib primitives listed by Print Assumptions for "
-    "computed_bounds_binary64 only)",
+    "computed_bounds_binary64 and landmark_count_binary64 only)",
 ]
 
 FEATURE_DIM = 24
@@ -197,6 +203,11 @@ def scalar_points(b, strict, is_lower):
     return [fb - d, fb + d]
 
 
+# smallest subnormal, a tiny normal, the smallest normal, DBL_EPSILON and its neighbours, huge, DBL_MAX, the two zeros
+EXTREME = [5e-324, 1e-300, 2.2250738585072014e-308, 1e-18, 2.220446049250313e-16, 1e300, 1.7976931348623157e308,
+           0.0, -0.0, -5e-324, -1e-300, -1e300]
+
+
 def cell_cases(doc, gen, rng, quick):
     cases = []
     ns = [4, 6, 7, 8, 12, 16] if quick else [4, 5, 6, 7, 8, 9, 10, 12, 13, 16, 19, 24, 32]
@@ -238,6 +249,12 @@ def cell_cases(doc, gen, rng, quick):
                         for ty, v in vals:
                             cases.append({"N": N, "mask": 7, "kws": with_kw(local, c["kw"], ty, v),
                                           "gen": "cell", "cell": [m, c["kw"], side]})
+                    # wave 2: extreme magnitudes (subnormal, tiny, huge, both zeros) around every real-valued
+                    # bound; the documented specification decides which side each one is on
+                    if c["ty"] == "S" and N in (ns[0], ns[-1]):
+                        for v in EXTREME:
+                            cases.append({"N": N, "mask": 7, "kws": with_kw(local, c["kw"], "S", hexf(v)),
+                                          "gen": "cell_extreme", "cell": [m, c["kw"], "extreme"]})
                     # a value well inside
                     if c["ty"] == "S" and c["lo"] is not None:
                         lo = Fraction(eval_bexpr(c["lo"][1], N, FEATURE_DIM, pr))
@@ -398,7 +415,19 @@ def stopf_of(case):
     return 1 if (selected_method(case) in FEATURE_ONLY and not is_wrong_typed(case)) else 0
 
 
+def kw_text(kws):
+    parts = []
+    for kw, ty, v in kws:
+        parts += [str(kw), ty, str(v)]
+    return parts
+
+
 def impl_line(case):
+    if case.get("kind") == "probe":
+        return " ".join(["P", str(len(case["A"]))] + kw_text(case["A"]) + [str(len(case["D"]))] + kw_text(case["D"]))
+    if case.get("kind") == "pred":
+        return " ".join(["V", str(case["pred"]), case["ty"], str(len(case["args"]))] +
+                        [str(a) for a in case["args"]] + [str(case["value"])])
     parts = ["R", str(case["N"]), str(case["mask"]), str(stopf_of(case)), str(len(case["kws"]))]
     for kw, ty, v in case["kws"]:
         parts += [str(kw), ty, str(v)]
@@ -595,6 +624,8 @@ def judge(ctx, case, io, mo, stats):
             got = io["echo"].get(KW_NAMES[kw])
             if want is None:
                 continue
+            if got == "-0":
+                got = "0"                  # the model's rationals have one zero
             if got is None or got != want:
                 if spec == "wrong_parameter_type":
                     continue           # checkTypes throws before the echo of the merged set
@@ -637,12 +668,302 @@ def evaluate(ctx, exe, mexe, cases, stats):
     return len(cases)
 
 
+# ----------------------------------------------------------------------------- wave 2: structural probes
+PROBE_VALUES = {"I": [3, 4, 7], "S": [hexf(0.5), hexf(4.0), hexf(0.25)], "B": [0, 1], "M": [5, 12, 0]}
+
+
+def probe_value(rng, kw, other_type=False):
+    ty = KW_TYPES[kw] if kw < 22 else "I"
+    if other_type or ty not in PROBE_VALUES:
+        pool = [t for t in ("I", "S", "B", "M", "O") if t != ty] if other_type else [ty]
+        ty = rng.choice(pool)
+    if ty == "O":
+        return ("O", rng.randrange(8))
+    if ty in PROBE_VALUES:
+        return (ty, rng.choice(PROBE_VALUES[ty]))
+    return random_value(rng, kw, 8)
+
+
+def probe_cases(rng, quick):
+    """stichwort::ParametersSet driven directly: every arity 1..5 written out as a literal comma expression,
+    a duplicate at every pair of positions (same value / other value / other type), triples, no duplicate;
+    D = a second set that overlaps A (merge must not overwrite), misses it (merge fills), disagrees on a type"""
+    cases = []
+    pool = [k for k in range(22)] + [100, 101]
+    reps = 2 if quick else 12
+    for arity in range(1, 8 if not quick else 7):
+        pairs = [(i, j) for i in range(arity) for j in range(i + 1, arity)] + [None]
+        if arity >= 3:
+            pairs.append("triple")
+        for pr in pairs:
+            for variant in ("same", "other_value", "other_type"):
+                if pr is None and variant != "same":
+                    continue
+                for _ in range(reps):
+                    kws = rng.sample(pool, arity)
+                    A = [P(k, *probe_value(rng, k)) for k in kws]
+                    if pr == "triple":
+                        i, j, l = sorted(rng.sample(range(arity), 3))
+                        A[j] = list(A[i])
+                        A[l] = list(A[i])
+                        A[l][2] = probe_value(rng, A[i][0])[1] if A[i][1] in PROBE_VALUES else A[i][2]
+                    elif pr is not None:
+                        i, j = pr
+                        if variant == "same":
+                            A[j] = list(A[i])
+                        elif variant == "other_value":
+                            ty, v = A[i][1], A[i][2]
+                            alt = [x for x in PROBE_VALUES.get(ty, []) if x != v]
+                            A[j] = P(A[i][0], ty, alt[0] if alt else v)
+                        else:
+                            A[j] = P(A[i][0], *probe_value(rng, A[i][0], other_type=True))
+                    # the second set
+                    D = []
+                    have = [a[0] for a in A]
+                    for k in rng.sample(have, min(len(have), rng.randint(0, 2))):
+                        D.append(P(k, *probe_value(rng, k, other_type=rng.random() < 0.4)))
+                    for k in rng.sample([q for q in pool if q not in have], rng.randint(0, 3)):
+                        D.append(P(k, *probe_value(rng, k)))
+                    rng.shuffle(D)
+                    cases.append({"kind": "probe", "A": A, "D": D, "gen": "container_probe", "mask": 0,
+                                  "arity": arity, "dup_at": pr if pr is None or pr == "triple" else list(pr)})
+    return cases
+
+
+def pred_probe_cases():
+    """the predicate objects of predicates.hpp called directly, both instantiation types, extreme magnitudes"""
+    cases = []
+    svals = EXTREME + [1.0, 0.5, -1.0, 3.0, 0.75, 0.984375, 0.99]
+    ivals = [-2147483647, -3, -1, 0, 1, 2, 3, 4, 7, 8, 2147483647]
+    for pred in (0, 1):
+        for v in svals:
+            cases.append({"kind": "pred", "pred": pred, "ty": "S", "args": [], "value": hexf(v)})
+        for v in ivals:
+            cases.append({"kind": "pred", "pred": pred, "ty": "I", "args": [], "value": v})
+    sranges = [(0.0, 1.0), (0.0, 5e-324), (-0.0, 1e300), (5e-324, 1e-300), (0.375, 1.0), (0.0, 2.3333333333333335),
+               (1e300, 1.7976931348623157e308), (-1e300, -1e-300)]
+    for pred in (2, 3):
+        for lo, hi in sranges:
+            for v in sorted(set([lo, hi, nextafter(lo, True), nextafter(lo, False), nextafter(hi, True),
+                                 nextafter(hi, False), 0.0, -0.0, 5e-324, 1e-300, 1e300, (lo + hi) / 2])):
+                if v in (float("inf"), float("-inf")) or v != v:
+                    continue
+                cases.append({"kind": "pred", "pred": pred, "ty": "S", "args": [hexf(lo), hexf(hi)], "value": hexf(v)})
+        for lo, hi in [(1, 8), (3, 8), (3, 3), (2, 2), (1, 0), (0, 2147483647)]:
+            for v in sorted(set([lo - 1, lo, lo + 1, hi - 1, hi, min(hi + 1, 2147483647), 0])):
+                cases.append({"kind": "pred", "pred": pred, "ty": "I", "args": [lo, hi], "value": v})
+    for c in cases:
+        c.update(gen="predicate_probe", mask=0)
+    return cases
+
+
+def model_kw_text(kws):
+    parts = []
+    for kw, ty, v in kws:
+        if ty == "S":
+            f = frac_of(v)
+            parts += [str(kw), "S", bits(f.numerator), bits(f.denominator)]
+        else:
+            parts += [str(kw), ty, str(v)]
+    return parts
+
+
+def probe_model_line(c):
+    if c["kind"] == "probe":
+        return " ".join(["P", str(len(c["A"]))] + model_kw_text(c["A"]) + [str(len(c["D"]))] + model_kw_text(c["D"]))
+    nums = [frac_of(a) for a in c["args"]] + [frac_of(c["value"])]
+    parts = ["B", str(c["pred"]), c["ty"], str(len(c["args"]))]
+    for f in nums:
+        parts += [bits(f.numerator), bits(f.denominator)]
+    return " ".join(parts)
+
+
+def name_to_kwid(name):
+    if name in KW_NAMES:
+        return KW_NAMES.index(name)
+    pre = "c14 unknown keyword "
+    if name.startswith(pre) and name[len(pre):].isdigit():
+        return int(name[len(pre):])
+    return None
+
+
+def canon_entry(ty, v):
+    """(type tag, value or None when the value is not compared)"""
+    if ty == "I":
+        return ("I", int(v))
+    if ty == "S":
+        return ("S", frac_of(v))
+    if ty == "B":
+        return ("B", int(v))
+    if ty == "M":
+        return ("M", int(v))
+    if ty == "O":
+        return ("O%d" % int(v), None)
+    return (ty, None)
+
+
+def impl_map(echo, prefix):
+    out = {}
+    for k, val in echo.items():
+        if not k.startswith(prefix):
+            continue
+        kid = name_to_kwid(k[len(prefix):])
+        tag, _, rep = val.partition(":")
+        try:
+            if tag == "I":
+                e = ("I", int(rep))
+            elif tag == "S":
+                e = ("S", Fraction(float(rep)))
+            elif tag == "B":
+                e = ("B", int(rep))
+            elif tag == "M":
+                e = ("M", int(rep))
+            else:
+                e = (tag, None)
+        except ValueError:
+            e = (tag, "unparsable:" + rep)
+        out[kid] = e
+    return out
+
+
+def model_map(text):
+    out = {}
+    for item in text.split(";"):
+        if "=" not in item:
+            continue
+        k, v = item.split("=", 1)
+        ty, val = v.split(":", 1)
+        if ty == "I":
+            e = ("I", parse_bits(val))
+        elif ty == "S":
+            n, d = val.split("/")
+            e = ("S", Fraction(parse_bits(n), parse_bits(d)))
+        elif ty in ("B", "M"):
+            e = (ty, int(val))
+        elif ty == "O":
+            e = ("O" + val, None)
+        else:
+            e = (ty, None)
+        out[int(k)] = e
+    return out
+
+
+def documented_container(c):
+    """the documented semantics of the container, independent of the Coq model"""
+    A = {}
+    dup = False
+    for kw, ty, v in c["A"]:
+        if kw in A:
+            dup = True
+        A[kw] = canon_entry(ty, v)                  # pmap[name] = p
+    D = {}
+    for kw, ty, v in c["D"]:
+        D[kw] = canon_entry(ty, v)
+    G = dict(D)
+    G.update(A)                                     # merge never overwrites
+    ct = "wrong_type" if any(k in D and D[k][0] != A[k][0] for k in A) else "ok"
+    look = {k: ("found" if k in A else "missed") for k in [a[0] for a in c["A"]] + [d[0] for d in c["D"]] + [777]}
+    return {"dup": "1" if dup else "0", "ct": ct, "map": A, "merged": G, "look": look}
+
+
+def derived_requests(c):
+    """an embed() request that shows the same container behaviour, when there is one"""
+    if c["kind"] == "probe":
+        kws = [list(k) for k in c["A"]]
+        if not any(k[0] == KW_METHOD for k in kws):
+            kws.append(P(KW_METHOD, "M", 5))
+        return [{"N": 8, "mask": 7, "kws": kws, "gen": "derived_from_probe"}]
+    if c["kind"] == "pred" and not c["args"]:
+        if c["ty"] == "S":
+            kw, m = (7, 10) if c["pred"] == 0 else (16, 17)     # width > 0 (LaplacianEigenmaps), FA epsilon >= 0
+            return [{"N": 8, "mask": 7, "kws": baseline(m, 8) + [P(kw, "S", c["value"])], "gen": "derived_from_probe"}]
+        if c["pred"] == 0 and abs(int(c["value"])) < 1000:
+            return [{"N": 8, "mask": 7, "kws": baseline(2, 8) + [P(6, "I", c["value"])], "gen": "derived_from_probe"}]
+    return []
+
+
+def run_probes(ctx, exe, mexe, probes, stats):
+    """-> (number evaluated, [embed requests derived from deviating probes])"""
+    impl = run_impl_one(ctx, exe, probes)
+    r = ctx.run(mexe, "".join(probe_model_line(c) + "\n" for c in probes), timeout=300)
+    mlines = r.out.splitlines()
+    if r.rc != 0 or len(mlines) != len(probes):
+        raise vlib.BuildError("model driver failed on the probes: rc=%s lines=%d/%d %s" % (
+            r.rc, len(mlines), len(probes), r.err[-300:]))
+    derived = []
+    bad = 0
+    for c, io, ml in zip(probes, impl, mlines):
+        if io["outcome"] == "not-run":
+            continue
+        why = None
+        shown = dict(c, impl=io["outcome"])
+        try:
+            why = judge_probe(c, io, ml, stats)
+        except (ValueError, KeyError, IndexError, OverflowError, TypeError) as ex:
+            why = "the output of the probe was not understood (%s: %s)" % (type(ex).__name__, str(ex)[:80])
+        if why:
+            ctx.mismatch(shown, why)
+            derived += derived_requests(c)
+            bad += 1
+            if bad >= 20:
+                break
+    return len(probes), derived
+
+
+def judge_probe(c, io, ml, stats):
+    """-> None or a sentence saying how the library / the generated bodies deviate on this probe"""
+    why = None
+    if True:
+        if c["kind"] == "pred":
+            stats["pred_probes"] = stats.get("pred_probes", 0) + 1
+            lo_hi = [frac_of(a) for a in c["args"]]
+            x = frac_of(c["value"])
+            want = {0: lambda: x > 0, 1: lambda: x >= 0, 2: lambda: lo_hi[0] <= x < lo_hi[1],
+                    3: lambda: lo_hi[0] <= x <= lo_hi[1]}[c["pred"]]()
+            got = io["echo"].get("r")
+            if io["outcome"] != "pred" or got not in ("0", "1"):
+                why = "the predicate object could not be called (%s)" % io["outcome"]
+            elif (got == "1") != want:
+                why = "predicate %d<%s>(%s)(%s) returned %s, documented %s" % (
+                    c["pred"], c["ty"], ",".join(str(a) for a in c["args"]), c["value"], got, int(want))
+            elif ml.strip() != got:
+                why = "generated body of predicate %d says %s, predicates.hpp returned %s" % (c["pred"], ml.strip(), got)
+        else:
+            stats["container_probes"] = stats.get("container_probes", 0) + 1
+            doc = documented_container(c)
+            f = [x.strip() for x in ml.split("|")]
+            if io["outcome"] != "probe":
+                why = "the container probe did not finish (%s)" % io["outcome"]
+            elif len(f) != 4:
+                why = "the generated bodies of parameter.hpp are stuck on this probe: " + ml[:80]
+            else:
+                e = io["echo"]
+                got = {"dup": e.get("dup"), "ct": e.get("ct"), "map": impl_map(e, "m:"), "merged": impl_map(e, "g:"),
+                       "look": {int(k[2:]): v for k, v in e.items() if k.startswith("l:")}}
+                for key in ("dup", "ct", "map", "merged", "look"):
+                    if got[key] != doc[key]:
+                        why = "ParametersSet %s is %s, documented %s" % (key, got[key], doc[key])
+                        break
+                if why is None and e.get("dupg") != doc["dup"]:
+                    why = "merge() changed the duplicate list"
+                if why is None:
+                    head = dict(w.split("=") for w in f[0].split())
+                    mod = {"dup": head.get("dup"), "ct": head.get("ct"), "map": model_map(f[1]), "merged": model_map(f[2]),
+                           "look": {int(k): v for k, v in (it.split("=") for it in f[3].split(";") if "=" in it)}}
+                    if head.get("agree") != "1":
+                        why = "generated bodies of parameter.hpp and the walker disagree (model-internal)"
+                    for key in ("dup", "ct", "map", "merged", "look"):
+                        if why is None and mod[key] != got[key]:
+                            why = "generated bodies of parameter.hpp give %s = %s, the library %s" % (key, mod[key], got[key])
+    return why
+
+
 def self_test_translator(ctx, quick):
     """the translator must see its output change when a scratch copy of the source is mutated"""
     sys.path.insert(0, os.path.join(ctx.verif, "translate"))
     import t_val
     try:
-        n, failures = t_val.self_test(ctx.repo, limit=6 if quick else None,
+        n, failures = t_val.self_test(ctx.repo, limit=8 if quick else None,
                                       scratch=os.path.join(ctx.build, "t_val_selftest"))
     except Exception as ex:                     # the tree itself no longer translates: reported elsewhere
         return "self-test not run: %s" % str(ex)[:200]
@@ -707,6 +1028,14 @@ def run(ctx):
     cases += build_cases(ctx, doc, gen, rng, ctx.quick)
     n = evaluate(ctx, exe, mexe, cases, stats)
     mark("cases run")
+    # wave 2: the container and the predicate objects driven directly, against the generated bodies
+    probes = probe_cases(rng, ctx.quick) + pred_probe_cases()
+    np_, derived = run_probes(ctx, exe[0], mexe, probes, stats)
+    n += np_
+    if derived:
+        n += evaluate(ctx, exe, mexe, derived[:200], stats)
+        cases += derived[:200]
+    mark("probes run")
     ctx.note("phases (cumulative wall clock): " + ", ".join(phases))
     if ctx.is_unshown():
         # search phase.  (a) model-guided: the model over the REGENERATED tables is cheap; requests on
@@ -729,7 +1058,7 @@ def run(ctx):
             n += evaluate(ctx, exe, mexe, more, stats)
             cases += more
     hist = {}
-    for c in cases:
+    for c in cases + probes:
         hist[c["gen"]] = hist.get(c["gen"], 0) + 1
     distinct = set()
     cellset = set()
@@ -738,6 +1067,8 @@ def run(ctx):
             distinct.add(hashlib.sha1(json.dumps([c["N"], c["mask"], c["kws"]]).encode()).hexdigest())
         if "cell" in c:
             cellset.add(tuple(c["cell"]))
+    for c in probes:
+        distinct.add(hashlib.sha1(impl_line(c).encode()).hexdigest())
     ctx.finish(
         evaluations=n, distinct_nontrivial=len(distinct),
         rule="requests = (N, which callbacks are real, keyword list in order with typed values). Generators: every "
@@ -748,11 +1079,20 @@ def run(ctx):
              "progress / tiny N / unknown names / missing method; random mixes and permutations. non-trivial = "
              "N > 0 and at least one keyword; distinct by hash of (N, mask, keywords). Each request runs in the "
              "real tapkee::embed, the extracted model over the regenerated tables and the extracted documented "
-             "specification.",
+             "specification. Wave 2: every real-valued cell also at 5e-324, 1e-300, DBL_MIN, 1e-18, DBL_EPSILON, "
+             "1e300, DBL_MAX, +0.0, -0.0 and three negatives (cell_extreme); container probes = "
+             "stichwort::ParametersSet driven directly with literal comma expressions of arity 1..6 (7 thorough), a "
+             "duplicate at every pair of positions x {same value, other value, other type}, triples, plus a second "
+             "set for merge / checkTypes / operator[], compared with the documented container semantics and with "
+             "the interpreted GENERATED bodies of parameter.hpp; predicate probes = the four predicate objects "
+             "called directly for both instantiation types on extreme magnitudes, compared with the documented "
+             "inequality and the GENERATED body. Every probe counts as one distinct evaluation.",
         samples=[{k: c[k] for k in ("N", "mask", "kws", "gen")} for c in cases[:3] + cases[len(cases) // 2:len(cases) // 2 + 3]],
         histogram={"generators": hist, "implementation_outcomes": stats["outcomes"],
                    "cells_covered(method,keyword,side)": len(cellset),
                    "echo_checked": stats.get("echo_checked", 0),
+                   "container_probes": stats.get("container_probes", 0),
+                   "predicate_probes": stats.get("pred_probes", 0),
                    "post_validation_crash_or_timeout": stats.get("post_validation_crash", 0),
                    "search_model_guided": [stats.get("search_model_guided_candidates", 0),
                                            stats.get("search_model_guided_suspects", 0)],
@@ -761,7 +1101,11 @@ def run(ctx):
         assumptions=["doubles handed to the model are the exact binary64 values (hex floats)",
                      "scalar test values avoid the open interval between an exact bound and its binary64 rounding",
                      "features.dimension() = %d > every N used" % FEATURE_DIM,
-                     "Arpack eigen method is not compiled in this build (not exercised)"],
+                     "Arpack eigen method is not compiled in this build (not exercised)",
+                     "a branch on the data that is reached only after a kernel/distance evaluation on every path, and "
+                     "that neither checks nor throws, is outside the property and not modelled (the translator lists "
+                     "each one in the notes); none exists on the pinned tree",
+                     "container probes use values whose stream representation is exact (0.25, 0.5, 4; small integers)"],
         extra={"obligation_files": ["coq/gen/Validate.v (regenerated)", "coq/Properties_C14.v"]})
 
 
